@@ -289,7 +289,11 @@ def extract_kernel(repo, spec):
     if pr_on:
         pr_on = "#pragma CPROVER check push\n" + pr_on
     pr_off = "#pragma CPROVER check pop\n" if pr_on else ""
-    code = "/* extracted from %s lines %d-%d sha256 %s */\n" + pr_on + "%s CONTRACT_%s K_CANARY_%s\n{\n%s\n%s\n%s\n}\n" + pr_off
+    # contract clauses are specification text: no pointer checks are generated for them (the body keeps all checks)
+    spec_on = '#pragma CPROVER check push\n#pragma CPROVER check disable "pointer"\n'
+    spec_off = "\n#pragma CPROVER check pop"
+    code = ("/* extracted from %s lines %d-%d sha256 %s */\n" + spec_on + "%s CONTRACT_%s K_CANARY_%s" + spec_off + "\n" + pr_on
+            + "{\n%s\n%s\n%s\n}\n" + pr_off)
     code = code % (
         spec["file"],
         line0,
